@@ -2,6 +2,7 @@
 import numpy as np
 
 import common as C
+import corr
 import extract
 import gen as G
 from framework import Check
@@ -48,6 +49,29 @@ def oracle(ck, base, mode):
             ck.violation("gradient vector neither unit nor zero",
                          {"case": _enc(b), "mode": mode, "nodes": np.argwhere(bad)[:3].tolist(),
                           "norms": nrm[bad][:3].tolist()})
+        # direction: agreement with a finite-difference gradient of the traveltime grid, away from the source,
+        # in homogeneous / smooth media (median angle; the per-node bound of the property is "about 20 degrees")
+        if sane and b["nsweep"] >= 2 and b["meta"]["medium"] in ("homog", "gradient", "smooth") and min(r1["tt"].shape) >= 4:
+            fd = np.stack(np.gradient(r1["tt"], *b["meta"]["d"]), axis=-1)
+            fn = np.sqrt((fd ** 2).sum(-1))
+            srcn = np.array([b["meta"]["src"][a] / b["meta"]["d"][a] for a in range(nd)])
+            idx = np.indices(r1["tt"].shape).astype(float)
+            far = np.sqrt(sum((idx[a] - srcn[a]) ** 2 for a in range(nd))) > 2.5
+            inner = np.ones(r1["tt"].shape, bool)
+            for a in range(nd):
+                sl = [slice(None)] * nd
+                sl[a] = [0, -1]
+                inner[tuple(sl)] = False
+            m = far & inner & (fn > 0) & (nrm > 0)
+            if m.sum() >= 6:
+                cosang = (g[m] * fd[m]).sum(-1) / fn[m]
+                ang = np.degrees(np.arccos(np.clip(cosang, -1, 1)))
+                ck.cov.setdefault("fd_angle_median_max", 0.0)
+                ck.cov["fd_angle_median_max"] = max(ck.cov["fd_angle_median_max"], float(np.median(ang)))
+                if np.median(ang) > 20.0:
+                    ck.violation("gradient direction disagrees with the finite-difference gradient of the traveltimes",
+                                 {"case": _enc(b), "mode": mode, "median_angle_deg": float(np.median(ang)),
+                                  "max_angle_deg": float(ang.max())})
         if g.shape != r1["tt"].shape + (nd,):
             ck.violation("gradient array not on the traveltime nodes", {"case": _enc(b), "shape": list(g.shape)})
         # zero exactly at a node coinciding with the source (when sane)
@@ -91,6 +115,49 @@ def run(tier):
             ck.tie_broken("trace", "grad_only_guards_gradient_arrays",
                           f"sequence of traveltime stores differs with the flag on {base[k]['meta']}")
     ck.cov["trace_pairs"] = len(base)
+    # Tie A: gradient assembly of the model vs the code (interpreter mode)
+    kt = cases(r, 12 if tier == "quick" else 80)
+    for t in kt:
+        t.update(op="fteik2d" if "dy" not in t else "fteik3d", grad=1, nsweep=int(r.integers(1, 3)))
+    nb = 0
+    for t, (c, d, i, m) in zip(kt, corr.run(kt, "interp")):
+        nb += c == "bit"
+        if c in ("mismatch", "status"):
+            ck.tie_broken("corr", t["op"] + " (gradient)", f"{d}; case {t['meta']}")
+    ck.cov["gradient_correspondence"] = {"cases": len(kt), "bit_identical": nb}
+    # API level: Eikonal.solve with / without return_gradient (the flag must not change nsweep, source, ...)
+    api = []
+    for b in cases(r, 10 if tier == "quick" else 60):
+        nd = len(b["meta"]["shape"])
+        o = G.origin(r, nd)
+        ns = int(r.choice([1, 1, 2, 3]))
+        src = [b["meta"]["src"][a] + o[a] for a in range(nd)]
+        for g in (False, True):
+            api.append({"op": "api_solve", "grid": 1.0 / b["slow"], "gridsize": b["meta"]["d"], "origin": o,
+                        "sources": src, "nsweep": ns, "grad": g, "meta": b["meta"], "ns": ns})
+    for mode in ("interp", "jit"):
+        res = C.run_impl(api, mode)
+        for k in range(0, len(api), 2):
+            a, bb = res[k], res[k + 1]
+            nd = len(api[k]["meta"]["shape"])
+            ck.count(2, sig=("api", mode, nd, api[k]["ns"], a["status"]))
+            if a["status"] != bb["status"]:
+                ck.violation("outcome of Eikonal.solve depends on return_gradient", {"mode": mode, "case": _enc(api[k])})
+                continue
+            if a["status"] != "ok":
+                continue
+            ga, gb = a["grids"][0], bb["grids"][0]
+            same = np.array_equal(ga["tt"].view(np.uint64), gb["tt"].view(np.uint64)) and ga["vzero"] == gb["vzero"]
+            if not same:
+                dev = float(np.nanmax(np.abs(ga["tt"] - gb["tt"])) / max(np.nanmax(np.abs(ga["tt"])), 1e-300))
+                ck.violation("traveltimes with return_gradient differ from those without",
+                             {"mode": mode, "ndim": nd, "rel_dev": dev, "level": "api", "nsweep": api[k]["ns"],
+                              "case": _enc(api[k])})
+            meta_ok = all(tuple(gs) == tuple(gb["gridsize"]) and np.array_equal(og, gb["origin"]) and tuple(sh) == tuple(gb["shape"])
+                          for gs, og, sh in gb["grad_meta"]) and len(gb["grad"]) == nd
+            if not meta_ok:
+                ck.violation("gradient grids do not share nodes/spacing/origin with the traveltimes",
+                             {"mode": mode, "case": _enc(api[k])})
     base = cases(r, 20 if tier == "quick" else 150)
     for b in base:
         b["nsweep"] = int(r.integers(1, 4))
